@@ -242,7 +242,7 @@ def random_closed(rng, c, r, kinds=(2, 3, 4)):
     return BezierPath.fromSegments(segs)
 
 
-SHAPES = ['rect', 'ellipse', 'circle', 'star', 'selfx', 'rect', 'ellipse', 'star', 'selfx', 'balloon', 'spiral2']
+SHAPES = ['rect', 'ellipse', 'circle', 'star', 'selfx', 'rect', 'ellipse', 'star', 'selfx', 'balloon', 'spiral2', 'lens', 'dshape', 'teardrop']
 
 
 def make_shape(rng, kind, c, size, integer=False):
@@ -273,6 +273,17 @@ def make_shape(rng, kind, c, size, integer=False):
                 CubicBezier(P(mx + eps, y1), P(mx + lobe, y1 + lobe), P(mx - lobe, y1 + lobe), P(mx - eps, y1)),
                 Line(P(mx - eps, y1), P(x0, y1)), Line(P(x0, y1), P(x0, y0))]
         return BezierPath.fromSegments(segs), max(w, h) / 2 + lobe
+    if kind in ('lens', 'dshape', 'teardrop'):
+        # contours of ONE or TWO segments (possible only with curves): a lens of two arcs, a D of one curve and one line, a one-cubic teardrop
+        def Q(x, y): return P(c.x + x * size, c.y + y * size)
+        if kind == 'lens':
+            if rng.random() < 0.5: segs = [QuadraticBezier(Q(-0.9, 0), Q(0, -1.0), Q(0.9, 0)), QuadraticBezier(Q(0.9, 0), Q(0, 1.0), Q(-0.9, 0))]
+            else: segs = [CubicBezier(Q(-0.9, 0), Q(-0.4, -0.7), Q(0.4, -0.7), Q(0.9, 0)), CubicBezier(Q(0.9, 0), Q(0.4, 0.7), Q(-0.4, 0.7), Q(-0.9, 0))]
+        elif kind == 'dshape': segs = [CubicBezier(Q(-0.3, -0.7), Q(0.9, -0.7), Q(0.9, 0.7), Q(-0.3, 0.7)), Line(Q(-0.3, 0.7), Q(-0.3, -0.7))]
+        else: segs = [CubicBezier(Q(0, -0.8), Q(1.2, 0.9), Q(-1.2, 0.9), Q(0, -0.8))]
+        if rng.random() < 0.5: segs = [type(s_)(*reversed(s_.points)) for s_ in reversed(segs)]
+        path = BezierPath.fromSegments(segs); path.closed = True
+        return path, size
     if kind == 'spiral2':
         # a contour that winds TWICE round its centre: the core has winding number 2 (outside by the even-odd rule, inside by non-zero)
         n = 8; ph = rng.uniform(0, 2 * math.pi)
@@ -365,7 +376,9 @@ def prepared(A, B, m):
     out = []
     for name, p in (('A', A), ('B', B)):
         step = pr.get(name)
-        if step and step[0] == 'flatten': p = p.flatten(step[1])
+        if step and step[0] == 'flatten':
+            q = p.flatten(step[1])
+            if len(q.asSegments()) >= 3: p = q          # a lens flattened with a step longer than its arcs is a two-sided 'polygon': not a contour
         out.append(p)
     return out[0], out[1]
 
